@@ -161,6 +161,9 @@ func gcGenerate(r *Run, o gcOpts) *gcWorld {
 			if t.Chance(1, 2) {
 				m.Metadata.Set("extra", fmt.Sprintf("e%d", t.Int(100)))
 			}
+			if t.Chance(1, 3) {
+				m.Metadata.Set("flag", "") // a key whose value is the empty string is still a key
+			}
 			pb.msgs = append(pb.msgs, m)
 		}
 		for left := n; left > 0; {
